@@ -12,7 +12,8 @@ from lib import vlib
 RULE = (
     "One run = one server (workers in {1,2,4}), mode Graceful{300-700 ms} (72%) or Forced, shutdown called 160-340 ms "
     "after start; 1-40 connections with seeded roles: blocker (std::thread::sleep 60-200 ms, graceful; 300-500 ms, forced, "
-    "running when the call is made), queued / queued_preconnected (request fully written while the worker is stalled "
+    "running when the call is made; in 10% of the graceful runs instead one 'stuck worker' blocker of 3 x timeout + 600-800 ms "
+    "with timeout 300/400 ms, so that the coordinator has to give up on a worker), queued / queued_preconnected (request fully written while the worker is stalled "
     "or a few ms before the call), inflight_short (async sleep <= timeout/3 running at the call), inflight_long (3 s), "
     "idle keep-alive, silent (no request), finished (Connection: close), second request of a keep-alive connection "
     "in flight, keep-alive race (second request written around the call), half-written request, connect during "
@@ -55,7 +56,7 @@ def run(ctx):
     if ctx.quick:
         shards, runs, budget, timeout = 8, 10, 45, 150
     else:
-        shards, runs, budget, timeout = 12, 170, 540, 1200
+        shards, runs, budget, timeout = 12, 300, 560, 1500
     args = ["--seed", ctx.seed, "--tier", ctx.tier, "--shards", shards, "--runs", runs, "--budget-s", budget]
     if ctx.replay:
         args += ["--replay", ctx.replay]
